@@ -911,6 +911,8 @@ def eval_concrete(e, env):
         bits = expr_bits(a) or expr_bits(b)
         if bits is None and (a == ("null",) or b == ("null",)):
             bits = 64       # a pointer compared with NULL
+        if bits is None and e[1] in ("eq", "ne", "ult", "ule", "ugt", "uge"):
+            bits = 64       # two atoms of unrecorded width: their (unsigned) values are compared as they are
         if bits is None:
             raise NoValue(e)
         va, vb = eval_concrete(a, env), eval_concrete(b, env)
